@@ -119,6 +119,19 @@ Definition event_cardinality (photons maxc modes : nat) : N :=
   fold_right (fun orb acc => if list_max orb <=? maxc then (orbit_cardinality orb modes + acc)%N else acc)
              0%N (orbits photons).
 
+(* event_to_sample: the orbits of the event with their cardinalities as weights; np.random.choice(p=...) can
+   only return an outcome of non-zero probability, the oracle draw d picks among those; then orbit_to_sample.
+   None = ValueError *)
+Definition event_to_sample (photons maxc modes : nat) (d : nat) (perm : list nat) : option (list nat) :=
+  if maxc * modes <? photons then None
+  else
+    let orbs := filter (fun o => list_max o <=? maxc) (orbits photons) in
+    let cands := filter (fun o => negb (N.eqb (orbit_cardinality o modes) 0)) orbs in
+    match cands with
+    | [] => None
+    | _ => orbit_to_sample (nth (d mod length cands) cands []) modes perm
+    end.
+
 (* ---------- sample.py ---------- *)
 Definition postselect (samples : list (list nat)) (lo hi : nat) : list (list nat) :=
   filter (fun s => (lo <=? list_sum s) && (list_sum s <=? hi)) samples.
